@@ -1,10 +1,14 @@
 /* vsched scenario family for C08: ABT_barrier (wait / reinit, mixed waiter kinds, fast re-entry) and
  * ABT_xstream_barrier.
- * usage: sc_barrier <seed> <mode> <log> <family bar|xbar> <nes> <nw1> <extra1> <rounds1> <nw2> <extra2> <rounds2> [ext%] [ntask]
- *   bar : phase 1 runs nw1+extra1 waiters (ULT / external thread) on B0 (num_waiters = nw1); together they make
+ * usage: sc_barrier <seed> <mode> <log> <family bar|xbar> <nes> <nw1> <extra1> <rounds1> <nw2> <extra2> <rounds2> [ext%] [ntask] [reinit]
+ *   bar : phase 1 runs nw1+extra1 waiters (ULT / external thread) on B0 (num_waiters = nw1, 1 .. ~150); together they make
  *         nw1*rounds1 calls of ABT_barrier_wait, i.e. rounds1 barrier rounds: a waiter that has returned takes the next
- *         call from a shared budget (with extra1 = 0 every waiter takes part in every round), plus ntask tasklets that
- *         must be rejected; then ABT_barrier_reinit(B0, nw2) (preceded by a reinit with 0 that must fail) and phase 2.
+ *         call from a shared budget (with extra1 = 0 every waiter takes part in every round), plus ntask tasklets, created
+ *         at random positions among the waiters, whose calls (1-2 each) must be rejected whatever their arrival position;
+ *         then ABT_barrier_reinit(B0, nw2) (preceded by a reinit with 0 that must fail) and phase 2.
+ *         reinit = 0: the main ULT re-initialises after every phase-1 caller was joined;
+ *         reinit = 1: the first caller that returns from the last round of phase 1 re-initialises at once, while the
+ *                     slower waiters of that round are still leaving the barrier (the round is complete: counter = 0).
  *   xbar: <nes> <n> <create> <rounds>: n callers (one per stream / external threads, kinds mixed incl. tasklets) call
  *         ABT_xstream_barrier_wait rounds times on X0 created with num_waiters = create (0: = n; or 1: the guard).
  * Monitors are plain C counters: under vsched a statement sequence without a hook point is atomic. */
@@ -12,6 +16,9 @@
 #include <sched.h>
 
 #define MAXR 64
+#define MAXA 176 /* actors of this family (the large-barrier configurations need > 129 waiters) */
+#define MAXEXT 40 /* external threads over the whole run (vsched controls at most 96 OS threads) */
+static actor acts[MAXA];
 static const char *family = "bar";
 static ABT_barrier B0;
 static ABT_xstream_barrier X0;
@@ -24,6 +31,9 @@ static int m_exact;            /* 1: exactly m_nw waiters, so a waiter's r-th ca
 static long m_calls, m_rets;   /* calls begun / returned */
 static int m_arrived[MAXR];    /* per-round arrivals (m_exact only) */
 static int m_left[MAXR];       /* per-round returns (m_exact only) */
+static int m_reinit_inline;    /* 1: the first returner of the phase's last round re-initialises the barrier */
+static int m_reinit_done;
+static int m_next_nw;          /* num_waiters of the next phase */
 
 static void relax(actor *a)
 {
@@ -59,17 +69,36 @@ static void after_return(actor *a, const char *obj, int r)
     }
 }
 
+/* ABT_barrier_reinit as the API documents it: a zero count is refused and changes nothing, then the real one */
+static void do_reinit(int oldnw, int newnw)
+{
+    char b[16];
+    int rc0 = ABT_barrier_reinit(B0, 0);
+    vs_note("reinit B0 0 %s", rcname(rc0, b));
+    VSA_CHECK(rc0 == ABT_ERR_INV_ARG, "ABT_barrier_reinit(0) returned %d", rc0);
+    uint32_t got = 0;
+    ABT_OK(ABT_barrier_get_num_waiters(B0, &got));
+    VSA_CHECK((int)got == oldnw, "ABT_barrier_reinit(0) changed num_waiters to %u", got);
+    int rc = ABT_barrier_reinit(B0, (uint32_t)newnw);
+    vs_note("reinit B0 %d %s", newnw, rcname(rc, b));
+    VSA_CHECK(rc == ABT_SUCCESS, "ABT_barrier_reinit returned %d", rc);
+    ABT_OK(ABT_barrier_get_num_waiters(B0, &got));
+    VSA_CHECK((int)got == newnw, "num_waiters after reinit is %u, expected %d", got, newnw);
+}
+
 static void barrier_body(actor *a)
 {
     char b[16];
     if (a->kind == AK_TASK) {
-        /* 1.x API: a tasklet is rejected before the barrier is touched */
-        long c0 = m_calls, r0 = m_rets;
-        (void)c0, (void)r0;
-        vs_log("apiCall wait B0");
-        int rc = ABT_barrier_wait(B0);
-        vs_note("apiRet wait B0 %s", rcname(rc, b));
-        VSA_CHECK(rc == ABT_ERR_BARRIER, "ABT_barrier_wait by tasklet A%d returned %d, expected ABT_ERR_BARRIER", a->id, rc);
+        /* 1.x API: a tasklet is refused, whatever its arrival position, and must not count as an arrival (the round
+         * monitors of the real waiters and the deadlock detection see it if it does) */
+        int ncalls = 1 + sc_rnd(2);
+        for (int k = 0; k < ncalls; k++) {
+            vs_log("apiCall wait B0");
+            int rc = ABT_barrier_wait(B0);
+            vs_note("apiRet wait B0 %s", rcname(rc, b));
+            VSA_CHECK(rc == ABT_ERR_BARRIER, "ABT_barrier_wait by tasklet A%d returned %d, expected ABT_ERR_BARRIER", a->id, rc);
+        }
         return;
     }
     for (int r = 0;; r++) {
@@ -85,6 +114,16 @@ static void barrier_body(actor *a)
         after_return(a, "B0", r);
         vs_note("apiRet wait B0 %s", rcname(rc, b));
         VSA_CHECK(rc == ABT_SUCCESS, "ABT_barrier_wait returned %d", rc);
+        if (m_reinit_inline && !m_reinit_done && m_rets > (long)m_nw * (m_rounds - 1)) {
+            /* this return belongs to the last round of the phase: every call of the phase has been counted.  Once the
+             * last arrival has left its critical section (counter reset, lock free) nobody is inside the barrier any
+             * more; the other waiters of the round are still leaving.  (ABT_barrier_reinit requires counter = 0.) */
+            ABTI_barrier *pb = ABTI_barrier_get_ptr(B0);
+            if (pb->counter == 0 && pb->lock.val.val == 0) {
+                m_reinit_done = 1;
+                do_reinit(m_nw, m_next_nw);
+            }
+        }
         if (sc_rnd(3) == 0) /* mostly: fast re-entry */
             relax(a);
     }
@@ -110,7 +149,7 @@ static void xbarrier_body(actor *a)
 static void launch(int lo, int hi)
 {
     for (int i = lo; i < hi; i++) {
-        actor *a = &sc_actors[i];
+        actor *a = &acts[i];
         a->id = i;
         if (a->kind == AK_ULT) {
             ABT_OK(ABT_thread_create(sc_pool[a->es], sc_actor_entry, a, ABT_THREAD_ATTR_NULL, &a->th));
@@ -126,7 +165,7 @@ static void launch(int lo, int hi)
 static void join(int lo, int hi)
 {
     for (int i = lo; i < hi; i++) {
-        actor *a = &sc_actors[i];
+        actor *a = &acts[i];
         if (a->kind == AK_EXT)
             continue;
         ABT_OK(ABT_thread_join(a->th));
@@ -135,7 +174,7 @@ static void join(int lo, int hi)
         ABT_OK(ABT_thread_free(&a->th));
     }
     for (int i = lo; i < hi; i++) {
-        actor *a = &sc_actors[i];
+        actor *a = &acts[i];
         if (a->kind == AK_EXT)
             pthread_join(a->pt, NULL);
         VSA_CHECK(a->started == 1 && a->finished == 1, "actor A%d started=%d finished=%d", i, a->started, a->finished);
@@ -170,7 +209,8 @@ int main(int argc, char **argv)
     int nw[2] = { (int)vsa_param(2, 2), (int)vsa_param(5, 2) };
     int extra[2] = { (int)vsa_param(3, 0), (int)vsa_param(6, 0) };
     int rounds[2] = { (int)vsa_param(4, 2), (int)vsa_param(7, 2) };
-    int extpct = (int)vsa_param(8, 30), ntask = (int)vsa_param(9, 0);
+    int extpct = (int)vsa_param(8, 30), ntask = (int)vsa_param(9, 0), reinit_mode = (int)vsa_param(10, 0);
+    int next_total = 0;
     if (nes > MAX_ES)
         nes = MAX_ES;
     for (int p = 0; p < 2; p++) {
@@ -190,43 +230,48 @@ int main(int argc, char **argv)
         ABT_OK(ABT_barrier_create((uint32_t)nw[0], &B0));
         vs_name_ex(ABTI_barrier_get_ptr(B0), sizeof(ABTI_barrier), VS_SNAP, "B0");
         vs_note("obj B0 nw=%d", nw[0]);
+        int inline_done = 0;
         for (int p = 0; p < 2; p++) {
             int nwait = nw[p] + extra[p];
-            if (p == 1) {
-                /* a zero count is refused and changes nothing; then the real re-initialisation */
-                int rc0 = ABT_barrier_reinit(B0, 0);
-                vs_note("reinit B0 0 %s", rcname(rc0, b));
-                VSA_CHECK(rc0 == ABT_ERR_INV_ARG, "ABT_barrier_reinit(0) returned %d", rc0);
-                uint32_t got = 0;
-                ABT_OK(ABT_barrier_get_num_waiters(B0, &got));
-                VSA_CHECK((int)got == nw[0], "ABT_barrier_reinit(0) changed num_waiters to %u", got);
-                int rc = ABT_barrier_reinit(B0, (uint32_t)nw[1]);
-                vs_note("reinit B0 %d %s", nw[1], rcname(rc, b));
-                VSA_CHECK(rc == ABT_SUCCESS, "ABT_barrier_reinit returned %d", rc);
-                ABT_OK(ABT_barrier_get_num_waiters(B0, &got));
-                VSA_CHECK((int)got == nw[1], "num_waiters after reinit is %u, expected %d", got, nw[1]);
-            }
+            if (p == 1 && !inline_done)
+                do_reinit(nw[0], nw[1]);
             if (rounds[p] == 0)
                 continue;
-            if (base + nwait + ntask > MAX_ACTORS) {
+            if (base + nwait + ntask > MAXA) {
                 fprintf(stderr, "too many actors\n");
                 return 2;
             }
             phase_reset(nw[p], extra[p], rounds[p]);
+            m_reinit_inline = (p == 0 && reinit_mode == 1);
+            m_reinit_done = 0;
+            m_next_nw = nw[1];
             vs_note("phase %d nw=%d waiters=%d rounds=%d tasklets=%d", p, nw[p], nwait, rounds[p], ntask);
             int n = nwait + ntask;
+            /* the tasklets sit at random positions of the creation order: they run before, between and after the
+             * arrivals of the real waiters */
+            int istask[MAXA];
+            memset(istask, 0, sizeof istask);
+            for (int k = 0; k < ntask; k++) {
+                int pos;
+                do
+                    pos = sc_rnd(n);
+                while (istask[pos]);
+                istask[pos] = 1;
+            }
             for (int i = base; i < base + n; i++) {
-                actor *a = &sc_actors[i];
-                int istask = (i - base) >= nwait;
-                a->kind = istask ? AK_TASK : (sc_rnd(100) < extpct ? AK_EXT : AK_ULT);
+                actor *a = &acts[i];
+                a->kind = istask[i - base] ? AK_TASK : (sc_rnd(100) < extpct && next_total < MAXEXT ? AK_EXT : AK_ULT);
+                if (a->kind == AK_EXT)
+                    next_total++;
                 a->es = sc_rnd(nes);
                 a->body = barrier_body;
                 vs_note("actor A%d kind=%s es=%d", i, AKN[a->kind], a->es);
             }
-            /* the tasklets are created last: they run while waiters are blocked or still arriving */
             launch(base, base + n);
             join(base, base + n);
             phase_end("B0", (long)nw[p] * rounds[p]);
+            if (m_reinit_inline)
+                inline_done = m_reinit_done; /* otherwise the main ULT re-initialises below */
             base += n;
         }
         vs_note("apiCall free B0");
@@ -242,7 +287,7 @@ int main(int argc, char **argv)
         /* at most one work unit per stream blocks in the barrier (it blocks the whole stream); the rest are
          * external threads */
         for (int i = 0; i < n; i++) {
-            actor *a = &sc_actors[i];
+            actor *a = &acts[i];
             if (i < nes) {
                 a->kind = sc_rnd(3) == 0 ? AK_TASK : AK_ULT;
                 a->es = i;
